@@ -188,7 +188,17 @@ class C10(Prop):
                 k = rng.choice([0, 0, 1, 1, 2])
                 ticks.append(rest[:k])
                 rest = rest[k:]
-            return {'kind': 'files', 'pre': pre, 'between': between, 'ticks': ticks, 'process_all': rng.random() < .3}
+            # removals: before a tick, some files that were present for at least one earlier tick disappear
+            removes, present_prev = [], list(pre) + list(between)
+            for names in ticks:
+                k = rng.choice([0, 0, 1, 1, 2])
+                gone = rng.sample(present_prev, min(k, len(present_prev))) if rng.random() < .5 else []
+                removes.append(gone)
+                present_prev = [n for n in present_prev if n not in gone] + list(names)
+            # (a file removed before its first tick would never be delivered: only files already seen by a tick are removed,
+            # except those of the very first tick, which may go before they were ever listed - the model's listings say so)
+            return {'kind': 'files', 'pre': pre, 'between': between, 'ticks': ticks, 'removes': removes,
+                    'process_all': rng.random() < .3}
         sources, nodes = gen_network(rng, self.focus)
         longest = max([len(s['queue']) for s in sources] + [1])
         return {'sources': sources, 'nodes': nodes, 'ticks': rng.randint(1, longest + 3),
@@ -209,6 +219,9 @@ class C10(Prop):
         allq = dict(diamond, sources=[{'queue': [[1, 2], [3], [4]], 'oneAtATime': False, 'default': [7]}])
         files = [{'kind': 'files', 'pre': ['a.txt'], 'between': ['b.txt'], 'ticks': [[], ['c.txt', 'd.txt'], []], 'process_all': pa}
                  for pa in (False, True)]
+        # rotation: in one interval a processed file disappears and a new one appears (same number of entries)
+        files += [{'kind': 'files', 'pre': ['a.txt'], 'between': ['b.txt'], 'ticks': [['c.txt'], ['d.txt'], ['e.txt'], []],
+                   'removes': [[], ['b.txt'], ['c.txt'], []], 'process_all': pa} for pa in (False, True)]
         return [diamond, win, st, allq] + (files if self.focus == 'C10' else [])
 
     def nontrivial(self, case):
@@ -266,7 +279,9 @@ class C10(Prop):
                 stream.map(lambda x: x).foreachRDD(self._capture(b))      # a second derived stream shares the source
                 create(case['between'])            # files appearing after creation, before the first interval
                 ssc.start()
-                for names in case['ticks']:
+                for t, names in enumerate(case['ticks']):
+                    for n in (case.get('removes') or [[]] * len(case['ticks']))[t]:
+                        os.remove(os.path.join(d, n))          # a processed file is rotated out while new ones arrive
                     create(names)
                     vs.tick()
                 got = [a, b]
@@ -274,8 +289,9 @@ class C10(Prop):
                 return Mismatch('file stream raised', exc(e), None, 'C10:files:exc')
         present = list(case['pre']) + list(case['between'])
         listings = []
-        for names in case['ticks']:
-            present = present + list(names)
+        for t, names in enumerate(case['ticks']):
+            gone = (case.get('removes') or [[]] * len(case['ticks']))[t]
+            present = [n for n in present if n not in gone] + list(names)
             listings.append(sorted(os.path.join(d, n) for n in present))
         done0 = [] if case['process_all'] else sorted(os.path.join(d, n) for n in case['pre'])
         model = ctx.driver.ask({'p': 'C10', 'op': 'files', 'done0': done0, 'listings': listings})['model']
